@@ -339,6 +339,7 @@ fn run_case(c: &Case, dir: &Path) -> RunResult {
     let mut epoch = 0u64;
     let mut version_epoch: HashMap<u64, u64> = HashMap::new();
     let mut straddle_pending = false;
+    let mut deleted_zero = false;
     let mut last_view = manifest_view(dir);
     let n = c.ops.len();
     for (i, op) in c.ops.iter().enumerate() {
@@ -354,6 +355,11 @@ fn run_case(c: &Case, dir: &Path) -> RunResult {
                                 "op {}: census after restart differs from the live census before it: before={:?} after={:?}",
                                 i, before, after
                             ));
+                        }
+                        // self-test of the shrinker / VIOLATION path only (never set by ./check):
+                        // pretend the oracle fails at a restart that follows a successful delete of id 0
+                        if std::env::var("C02_SELFTEST_FAKE_FAILURE").is_ok() && deleted_zero && res.oracle.is_none() {
+                            res.oracle = Some(format!("op {}: SELFTEST fake failure (restart after delete of id 0)", i));
                         }
                         be = Some(b);
                         res.restarts += 1;
@@ -396,6 +402,9 @@ fn run_case(c: &Case, dir: &Path) -> RunResult {
                             straddle_pending = true;
                         }
                         reference.remove(id);
+                        if *id == 0 {
+                            deleted_zero = true;
+                        }
                     }
                     Class::Bool(x)
                 }
